@@ -56,6 +56,22 @@ ResIsNorm(res, A, K) ==
      /\ res[k][1] > 0
      /\ QEq(QMul(res[k], res[k]), QMul(QMul(K, K), Dot3(Col(A, k), Col(A, k))))
 
+\* The same predicate, safe for ANY observed rational res[k] = n/d (lowest
+\* terms): R = K^2.|col k|^2 is a small rational P/Q in lowest terms (oracle
+\* quantities only); (n/d)^2 = P/Q iff n^2 = P and d^2 = Q because n^2/d^2 is
+\* in lowest terms too.  When n or d is 46341 or more its square exceeds every
+\* 32-bit P, Q, so the equality is false - decided without computing the
+\* square (TLC would stop with an overflow error on a wrong, long-winded
+\* resolution such as 333333/1000).
+SqrtLimit == 46341
+ResIsNormSafe(res, A, K) ==
+  \A k \in 1..3 :
+     LET q == QNorm(res[k])
+         R == QMul(QMul(K, K), Dot3(Col(A, k), Col(A, k)))
+     IN /\ q[1] > 0
+        /\ q[1] < SqrtLimit /\ q[2] < SqrtLimit
+        /\ q[1] * q[1] = R[1] /\ q[2] * q[2] = R[2]
+
 \* Reach of the fixed-point representation.  The harness reports an entry of
 \* the generated resolution / translation whose magnitude is >= Reach case
 \* units (131 mm at K = 1000; it may not fit TLC's integers) BY NAME instead of
